@@ -5,7 +5,8 @@
    every run, not proved.  parse_lines = parse_script after line splitting; llines = the logical lines. *)
 From BS Require Import Model.Base Model.Regex Model.Num Model.ExprParser Model.Script Model.ScriptX Model.Lower
   Gen.Unicode Proofs.ScriptFacts Proofs.C06 Proofs.C10 Proofs.C10ws Proofs.C10wsExpr Proofs.C10wsIndent
-  Proofs.ExprFuel Proofs.C10wsFull Proofs.RegexShiftG Proofs.C10wsIndent2 Proofs.C10wsReturn.
+  Proofs.ExprFuel Proofs.C10wsFull Proofs.RegexShiftG Proofs.C10wsIndent2 Proofs.C10wsReturn
+  Proofs.C10tokLex Proofs.C10tokSpaced Proofs.RegexTrail Proofs.C10tokTrail Proofs.RegexTrail2.
 
 (* ---- LF versus CRLF: both texts have the same lines ---- *)
 Theorem C10_crlf : forall lines, lines <> [] -> Forall no_lf lines -> Forall (fun l => ends_cr l = false) lines ->
@@ -156,17 +157,136 @@ Theorem C10_ws_return_bare : forall n ws1 ws2, white ws1 -> white ws2 ->
 Proof. exact classify_return_bare. Qed.
 Print Assumptions C10_ws_return_bare.
 
+(* ---- white space BETWEEN the tokens of an expression (round 5, Proofs/C10tokLex.v, Proofs/C10tokSpaced.v).
+   spaced t1 t2 (= sp PU t1 t2, an inductive relation between two TEXTS): both are the same sequence of token texts, every
+   token preceded by its own arbitrary, possibly EMPTY, run of `\s` characters in t1 and in t2, plus arbitrary trailing
+   white space.  The relation follows the order of tokens the grammar allows (operand position / after an operand / right
+   after `name(`), which is why an empty gap is harmless: no two neighbours the grammar allows merge into a longer token.
+   Tokens: ( ) , the unary ! and -, the fourteen binary operators (In op spec_ops), identifiers, calls `name (` (the
+   regex itself allows white space between the name and its parenthesis; a one-letter name is never a call), number literals
+   (numtok: the literal reading consumes all of the token; a leading `+` belongs to the literal, a leading `-` is the unary
+   operator, exactly as the parser reads them), and OPAQUE atoms (atom_reads): a '...' or "..." literal or a [...] variable
+   is any text that starts with the opening delimiter and that the atom's own regenerated regex reads completely, with the
+   same captured text, in front of both remainders — its interior is never touched.
+   White space is only inserted/removed BETWEEN tokens, never inside one (`< =`, `* *`, `1 .5`, `a b` for `ab`, `+ 1` for
+   the literal `+1` are different texts: C10_ex_ws_tokens_inside).
+   PARTIAL: (a) only the result EOk is related (hence, sp being symmetric, t1 parses iff t2 parses, to the same tree; the
+   message/column of a rejected text is not related); (b) string / bracket atoms are characterised through their regex,
+   not syntactically.
+   Proved by running the parser on both texts in lockstep; the token regexes are read through the direct readings of
+   Proofs/C02rx.v / C13rx.v (skip white space, then first-character test / longest run), the three atom regexes through
+   their first literal. ---- *)
+Theorem C10_ws_expression_tokens_partial : forall t1 t2 e, spaced t1 t2 ->
+  parse_expression t1 = EOk e -> parse_expression t2 = EOk e.
+Proof. exact spaced_parse. Qed.
+Print Assumptions C10_ws_expression_tokens_partial.
+
+Theorem C10_ws_spaced_symmetric : forall t1 t2, spaced t1 t2 -> spaced t2 t1.
+Proof. exact (sp_sym PU). Qed.
+Print Assumptions C10_ws_spaced_symmetric.
+
+Theorem C10_ws_expression_tokens_iff_partial : forall t1 t2 e, spaced t1 t2 ->
+  (parse_expression t1 = EOk e <-> parse_expression t2 = EOk e).
+Proof. exact spaced_parse_iff. Qed.
+Print Assumptions C10_ws_expression_tokens_iff_partial.
+
+(* non-vacuity: one expression with every token kind (call, number, unary, variable, group, string, exponent literal, all
+   operator lengths, empty argument list, bracket variable, double-quoted string), once with no white space at all and once
+   with blanks / a tab / two blanks at every gap: related, and both parse to the same tree *)
+Example C10_ex_ws_tokens :
+  ex_tight = U "fn(1,-x)+'a b'*(y<=2.5e+3)||!gg()&&[k 1]!=""q""" /\
+  ex_loose = U " fn ( 1 , - x )  + 'a b' *\000009( y <= 2.5e+3 ) || ! gg ( ) && [k 1] != ""q"" " /\
+  exists e, parse_expression ex_tight = EOk e /\ parse_expression ex_loose = EOk e /\ spaced ex_tight ex_loose.
+Proof. split; [reflexivity|]. split; [reflexivity|]. exact spaced_example_parse. Qed.
+
+Example C10_ex_ws_tokens_inside :
+  parse_expression (U "a<=b") <> parse_expression (U "a< =b") /\
+  parse_expression (U "a**b") <> parse_expression (U "a* *b") /\
+  parse_expression (U "ab") <> parse_expression (U "a b") /\
+  parse_expression (U "x+1") = parse_expression (U "x + 1") /\
+  parse_expression (U "+1") <> parse_expression (U "+ 1").
+Proof. exact spaced_counterexamples. Qed.
+
+(* ---- TRAILING white space of an expression (round 5, Proofs/RegexTrail.v, Proofs/C10tokTrail.v): FULL — every text
+   (also a rejected one: same message and same column), every run of `\s` characters, an EQUALITY of results.
+   Each of the eleven regenerated token regexes answers on s ++ ws exactly what it answers on s (C10_ws_token_regex_trailing):
+   the eight that end with a literal non-space character through an operational lemma about the backtracking engine itself
+   (appending white space to the subject changes nothing when the continuation refuses to stop inside the appended run:
+   Proofs/RegexTrail.v m_trail / ev_trail — this covers the '...' "..." [...] regexes, whose stars over alternations have no
+   direct reading), the four that end inside a capture group through their direct readings.  Then the three parser functions
+   run in lockstep on s ++ ws and s; the final strip() ignores the run; columns are differences of lengths. ---- *)
+Theorem C10_ws_expression_trailing : forall t ws, white ws -> parse_expression (t ++ ws) = parse_expression t.
+Proof. exact parse_expression_trail. Qed.
+Print Assumptions C10_ws_expression_trailing.
+
+Theorem C10_ws_token_regex_trailing : forall R s ws, tokre R -> white ws -> rx R (s ++ ws) = rx R s.
+Proof. exact rx_trail. Qed.
+Print Assumptions C10_ws_token_regex_trailing.
+
+Example C10_ex_ws_expression_trailing :
+  white (U " \000009 ") /\ tokre Gen.Regexes.R_EXPR_STRING /\
+  (exists e, parse_expression (U "fn(1, -x) + 'a' \000009 ") = EOk e /\ parse_expression (U "fn(1, -x) + 'a'") = EOk e) /\
+  parse_expression (U "1 + ) \000009 ") = EErr (U "Syntax error") 4 /\ parse_expression (U "1 + )") = EErr (U "Syntax error") 4 /\
+  parse_expression (U "'a \000009 ") = parse_expression (U "'a").
+Proof.
+  split; [intros c I; vm_compute in I; repeat (destruct I as [<-|I]; [reflexivity|]); contradiction|].
+  split; [constructor|].
+  split; [eexists; split; vm_compute; reflexivity|].
+  repeat split; vm_compute; reflexivity.
+Qed.
+
+(* ---- TRAILING white space and the STATEMENT regexes, engine level (round 5, Proofs/RegexTrail2.v).  For the fifteen
+   statement regexes that end with  X \s*$  after a literal non-space character X (stmt_tail_re: function begin / end, label,
+   include, include <..>, if / elif / else / endif, for / endfor, while / endwhile, break, continue) the ENGINE's answer on
+   line ++ ws is "no match" iff it is on line, and a match has the SAME capture table (which groups matched, where they start
+   and end), so every captured text is the same; only the end of the whole match moves.  Proved operationally (m_trail2:
+   Proofs/RegexTrail.v m_trail with "equal answers" weakened to "same captures"; ev_eol_tail: `\s*$` succeeds exactly on white
+   subjects), for any run of `\s` characters.  PARTIAL with respect to "classify n (line ++ ws) = classify n line": the three
+   other statement regexes are not covered — `(?P<expr>.+)$` (assignment) and `\S.*` (return expr) absorb the run, the name
+   group of jump is followed directly by `\s*$` — and assignment is tried FIRST by classify, so no classify theorem follows
+   yet (see C10_ws_tokens_partial). ---- *)
+Theorem C10_ws_statement_regex_trailing_partial : forall R line ws, stmt_tail_re R -> white ws ->
+  match rxm R line with
+  | MNo => rxm R (line ++ ws) = MNo
+  | MYes _ c => exists e', rxm R (line ++ ws) = MYes e' c /\ forall g, gtext (line ++ ws) c g = gtext line c g
+  | MFuel => False
+  end.
+Proof. exact stmt_regex_trail_groups. Qed.
+Print Assumptions C10_ws_statement_regex_trailing_partial.
+
+Example C10_ex_ws_statement_regex_trailing :
+  stmt_tail_re Gen.Regexes.R_SCRIPT_FOR_BEGIN /\ white (U " \000009") /\
+  (exists e c, rxm Gen.Regexes.R_SCRIPT_FOR_BEGIN (U "for v, i in arr :") = MYes e c /\
+               gtext (U "for v, i in arr :") c Gen.Regexes.R_SCRIPT_FOR_BEGIN__values = U "arr " /\
+               exists e', rxm Gen.Regexes.R_SCRIPT_FOR_BEGIN (U "for v, i in arr : \000009") = MYes e' c /\ e' = e + 2) /\
+  rxm Gen.Regexes.R_SCRIPT_LABEL (U "a b:") = MNo /\ rxm Gen.Regexes.R_SCRIPT_LABEL (U "a b: ") = MNo.
+Proof.
+  split; [constructor|].
+  split; [intros c I; vm_compute in I; repeat (destruct I as [<-|I]; [reflexivity|]); contradiction|].
+  split; [|split; vm_compute; reflexivity].
+  eexists. eexists. split; [vm_compute; reflexivity|]. split; [vm_compute; reflexivity|].
+  eexists. split; vm_compute; reflexivity.
+Qed.
+
 (* C10_ws_tokens_partial — the FULL clause "breaking a line at any point where a space is allowed / changing indentation or
    trailing whitespace yields the same statement" needs whitespace-insensitivity of EVERY statement regex and of the
    expression lexer at EVERY gap.  PROVED: the keyword-only statements and the bare `return` with any indentation and trailing whitespace
    (C10_ws_keyword_lines, C10_ws_else_gap, C10_ws_return_bare); a leading whitespace run in front of an expression, no fuel premise
    (C10_ws_expression_leading_partial / _err / _ok, C10_expression_fuel_suffices); indentation of EVERY statement kind
-   (C10_ws_indentation; C10_ws_indentation_partial is the earlier version without function-begin / jump / jumpif / return).
-   NOT proved (oracle only): trailing whitespace and inner gaps of the statements that carry an expression or a name
-   (assignment, function, if/elif/while/for, label, jump/jumpif, return, include) — with a trailing run the greedy `.+` of an
-   expression group captures the run too, so this needs whitespace-insensitivity of the expression lexer at the END of the
-   text plus a per-regex uniqueness argument; whitespace between the tokens of an expression.  These are checked
-   metamorphically by the direct oracle (harness/c10_oracle.py) at every inter-token gap.
+   (C10_ws_indentation; C10_ws_indentation_partial is the earlier version without function-begin / jump / jumpif / return);
+   round 5: white space BETWEEN the tokens of an expression — all token kinds, string / bracket atoms opaque, result EOk only
+   (C10_ws_expression_tokens_partial, _iff_partial, C10_ws_spaced_symmetric); TRAILING white space of an expression, every
+   text, equality of results (C10_ws_expression_trailing, C10_ws_token_regex_trailing); trailing white space for fifteen
+   statement regexes at the engine level (C10_ws_statement_regex_trailing_partial).
+   NOT proved (oracle only): trailing whitespace and inner gaps of the STATEMENT lines that carry an expression or a name
+   (assignment, function, if/elif/while/for, label, jump/jumpif, return expr, include).  What is missing there is the
+   statement-regex layer only (the expression inside is covered by the two round-5 theorems): (1) the fifteen regexes that end
+   with `X \s*$` after a literal X are done at the ENGINE level (C10_ws_statement_regex_trailing_partial: same captures), but
+   classify tries the assignment regex first and the jump regex (name group directly before `\s*$`) is not of that shape; (2) `(?P<expr>.+)$` (assignment) and `\S.*` (return) absorb the
+   run, so the engine does NOT run in lockstep there (more star iterations on the longer subject), and `x =` / `x =  ` shows
+   that "assignment does not match" is not even preserved for a rejected line — the classify theorem has to go through the
+   kinds; (3) a run containing LF must be excluded (`.` does not read it).  These stay checked metamorphically by the direct
+   oracle (harness/c10_oracle.py) at every inter-token gap of every statement kind.
    C10_stateless: parse_script / parse_expression of the model are Gallina functions, so determinism and absence
    of state between calls are definitional; on the implementation they are tested by interleaved repeated calls. *)
 
